@@ -111,29 +111,60 @@ def _env():
     mon.use_tool_id(tool, "xv-c18")
     codes = {}
 
-    def add(label, fn):
-        fn = getattr(fn, "__func__", fn)
-        codes[fn.__code__] = label
+    E.anchor_notes = {}
+
+    def code_of(fn):
+        """Code object behind staticmethod / classmethod / bound method / functools wrappers (lru_cache, wraps,
+        partial).  -> (code | None, went through a wrapper that has no code object of its own?)"""
+        wrapped = False
+        for _ in range(12):
+            code = getattr(fn, "__code__", None)
+            if isinstance(code, types.CodeType):
+                return code, wrapped
+            nxt = getattr(fn, "__func__", None)
+            if nxt is None:
+                nxt = getattr(fn, "__wrapped__", None) or getattr(fn, "func", None)
+                wrapped = wrapped or nxt is not None
+            if nxt is None:
+                return None, wrapped
+            fn = nxt
+        return None, wrapped
+
+    def add(label, owner, path):
         E.reach[label] = 0
-        mon.set_local_events(tool, fn.__code__, mon.events.PY_START)
+        fn = owner
+        try:
+            for part in path.split("."):
+                fn = getattr(fn, part)
+        except AttributeError:
+            E.anchor_notes[label] = "missing"
+            return
+        code, wrapped = code_of(fn)
+        if code is None:
+            E.anchor_notes[label] = "not-instrumentable"  # reach of this anchor cannot be measured; evidence says so
+            return
+        if wrapped:
+            E.anchor_notes[label] = "behind-wrapper"  # e.g. a cache: the counter sees only calls that reach the body
+        codes[code] = label
+        mon.set_local_events(tool, code, mon.events.PY_START)
 
     def on_start(code, _off):
         E.reach[codes[code]] += 1
 
     mon.register_callback(tool, mon.events.PY_START, on_start)
-    add("ArgSpec.__str__", A.ArgSpec.__str__)
-    add("ArgSpec._spec_parameter_type_str", A.ArgSpec._spec_parameter_type_str)
-    add("ArgSpec.normalize_parameter_names", A.ArgSpec.normalize_parameter_names)
-    add("ArgSpecConvertible.from_spec", A.ArgSpecConvertible.from_spec)
-    add("ArgSpecConvertible.spec", A.ArgSpecConvertible.spec)
-    add("_convert_arg_to_type", A._convert_arg_to_type)
-    add("PipelineLexer._generator", A.PipelineLexer._generator)
-    add("PipelineLexer.lex", A.PipelineLexer.lex)
-    add("parse_pipeline", A.parse_pipeline)
-    add("_parse_spec", A._parse_spec)
-    add("_parse_pass_parameters", A._parse_pass_parameters)
-    add("_parse_parameter_value_element", A._parse_parameter_value_element)
-    add("PassPipeline.parse_spec", passes_mod.PassPipeline.parse_spec)
+    add("ArgSpec.__str__", A, "ArgSpec.__str__")
+    add("ArgSpec._spec_parameter_type_str", A, "ArgSpec._spec_parameter_type_str")
+    add("ArgSpec.normalize_parameter_names", A, "ArgSpec.normalize_parameter_names")
+    add("ArgSpecConvertible.from_spec", A, "ArgSpecConvertible.from_spec")
+    add("ArgSpecConvertible.spec", A, "ArgSpecConvertible.spec")
+    add("_convert_arg_to_type", A, "_convert_arg_to_type")
+    add("PipelineLexer._generator", A, "PipelineLexer._generator")
+    add("PipelineLexer.lex", A, "PipelineLexer.lex")
+    add("parse_pipeline", A, "parse_pipeline")
+    add("_parse_spec", A, "_parse_spec")
+    add("_parse_pass_parameters", A, "_parse_pass_parameters")
+    add("_parse_parameter_value_element", A, "_parse_parameter_value_element")
+    add("PassPipeline.parse_spec", passes_mod, "PassPipeline.parse_spec")
     return E
 
 
@@ -285,6 +316,8 @@ class Out:
     def result(self, E):
         for k, v in E.reach.items():
             self.C["anchor:" + k] = v
+        for k, note in E.anchor_notes.items():
+            self.setadd("anchors_" + note, k)
         return {"evaluations": self.evaluations, "nontrivial": sorted(self.nontrivial), "samples": self.samples[:3],
                 "counters": self.C, "sets": {k: sorted(v) for k, v in self.S.items()}, "violations": self.violations}
 
@@ -350,6 +383,38 @@ def rt_once(E, cls, p, variant, alt=False):
     return ("differs" if diffs else "ok"), txt, diffs, q, None
 
 
+def _equal_other_types(x):
+    """Values that compare == to x (and hash alike) but differ in type or float sign."""
+    out = []
+    for conv in (bool, int, float):
+        try:
+            y = conv(x)
+        except (OverflowError, ValueError):
+            continue
+        if y == x and R.canon(y) != R.canon(x):
+            out.append(y)
+    if isinstance(x, float) and x == 0:
+        out.append(-x)
+    if x == 0 and not isinstance(x, float):
+        out.append(-0.0)
+    return out
+
+
+def _conflated(E, vt):
+    """Elements of vt whose real text is the reference text of an ==-equal value of another type, provided every
+    other element prints as the reference printer prints it; [] if the text is not explained that way."""
+    out = []
+    for x in vt:
+        real = E.ArgSpec._spec_parameter_type_str(x)
+        if real == R.print_value(x):
+            continue
+        if isinstance(x, (bool, int, float)) and x == x and any(real == R.print_value(a) for a in _equal_other_types(x)):
+            out.append(x)
+        else:
+            return []
+    return out
+
+
 def classify_value(E, t, v, variant, kind, qv, err, have_q):
     """Mechanism keys for ONE option value whose round trip failed in isolation.  Known keys are assigned only
     when the observed behaviour matches the model of the known wrong behaviour; otherwise a generic key."""
@@ -371,6 +436,9 @@ def classify_value(E, t, v, variant, kind, qv, err, have_q):
                 keys.append("rt:float-exponent-printed-without-point")
             elif real_txt == both:
                 keys += ["rt:str-printed-unescaped", "rt:float-exponent-printed-without-point"]
+            elif _conflated(E, vt):
+                # the text of a value that compares == but has another type (True / 1 / 1.0, 0.0 / -0.0): value-keyed state
+                keys.append("rt:print-conflates-equal-values:" + "+".join(sorted({type(x).__name__ for x in _conflated(E, vt)})))
             else:
                 keys.append("rt:print-unexpected:" + _typeclass(v))
             return keys
@@ -450,6 +518,7 @@ def check_instance(E, O, label, cls, hints, kw, rng, variants=VARIANTS):
         O.setadd("ctor_rejected_classes", label)
         return None
     fields = _fields(cls)
+    kw = {f.name: getattr(p, f.name) for f in fields}  # complete a partial assignment with the defaults
     nondefault = [f.name for f in fields if R.canon(getattr(p, f.name)) != R.canon(_default(f))]
     sig = (label, tuple((f.name, R.vclass(getattr(p, f.name))) for f in fields))
     all_ok = True
@@ -488,9 +557,92 @@ def gen_kw(cls, hints, rng, hostile):
     return kw
 
 
+def conflation_probes(E, O, facts, rng, flip):
+    """Values that are == with equal hashes but of different types (True / 1 / 1.0, False / 0 / 0.0 / -0.0) are printed
+    one after the other in ONE process, FIRST thing in the shard (before anything else was printed), in one order for
+    the 1-family and the opposite order for the 0-family; odd shards use the mirrored orders.  Registered passes with
+    bool / int options are interleaved with the synthetic float-option classes, scalars with tuple elements and with
+    whole instances that compare == (num=1 vs num=1.0).  Any state keyed by value (memoised formatting, interned
+    specs, instance-keyed caches) that conflates them fails the ordinary round-trip oracle."""
+    reg_bool = reg_int = None
+    for label in sorted(k for k in facts if k.startswith("pass:")):
+        try:
+            cls = facts[label]()
+        except ImportError:
+            continue
+        hints = typing.get_type_hints(cls)
+        for f in _fields(cls):
+            if hints[f.name] is bool and reg_bool is None and len(_fields(cls)) <= 4:
+                reg_bool = (label, cls, hints, f.name)
+            if hints[f.name] is int and reg_int is None and len(_fields(cls)) <= 4:
+                reg_int = (label, cls, hints, f.name)
+        if reg_bool and reg_int:
+            break
+    if not (reg_bool and reg_int):
+        O.count("conflation_no_registered_bool_or_int_pass")
+    SF = facts["synth:xv-synth-float"]()
+    SO = facts["synth:xv-synth-opt"]()
+    hSF, hSO = typing.get_type_hints(SF), typing.get_type_hints(SO)
+
+    def reg(which, value):
+        if which is None:
+            return None
+        label, cls, hints, fname = which
+        kw = {f.name: (value if f.name == fname else R.gen_value(hints[f.name], rng, hostile=False)) for f in _fields(cls)}
+        for f in _fields(cls):  # keep the other fields away from the families under test
+            if f.name != fname and isinstance(kw[f.name], (bool, int, float)) and kw[f.name] in (0, 1):
+                kw[f.name] = _default(f) if f.default is not dataclasses.MISSING else kw[f.name]
+        return label, cls, hints, kw
+
+    def sf(**kw):
+        base = {"req": 2.5}
+        base.update(kw)
+        return "synth:xv-synth-float", SF, hSF, base
+
+    def so(**kw):
+        base = {"req_s": "s", "req_i": 5, "req_t": ("t", "u")}
+        base.update(kw)
+        return "synth:xv-synth-opt", SO, hSO, base
+
+    one = [("bool", reg(reg_bool, True)), ("float", sf(req=1.0)), ("int", reg(reg_int, 1)), ("bool", so(flag=True)),
+           ("float", sf(many=(1.0, 2.0))), ("int", so(req_i=1)), ("float", sf(num=1.0)), ("int", sf(num=1)),
+           ("bool", so(bools=(True, True))), ("int", sf(mixed=(1, 1.0))), ("float", sf(dflt=1.0))]
+    zero = [("float", sf(req=0.0)), ("negzero", sf(req=-0.0)), ("int", reg(reg_int, 0)), ("bool", reg(reg_bool, False)),
+            ("float", sf(many=(0.0, -0.0))), ("bool", so(flag=False)), ("int", so(req_i=0)), ("int", sf(num=0)),
+            ("float", sf(num=0.0)), ("negzero", sf(dflt=-0.0)), ("int", sf(mixed=(0, -0.0, 0.0))), ("bool", so(bools=(False,)))]
+    if flip:
+        one.reverse()
+        zero.reverse()
+    for fam, seq in (("1", one), ("0", zero)):
+        order = [t for t, c in seq if c is not None]
+        O.setadd("conflation_first_printed", f"{fam}:{order[0]}")
+        for _t, case in seq:
+            if case is None:
+                continue
+            label, cls, hints, kw = case
+            O.count("conflation_probes")
+            check_instance(E, O, label, cls, hints, kw, rng)
+    # the same at ArgSpec level (no class): scalars and mixed tuples
+    fams = [[True, 1.0, 1], [0.0, -0.0, 0, False]]
+    for fam in fams:
+        seq = list(reversed(fam)) if flip else fam
+        for params in [{"k": (x,)} for x in seq] + [{"k": tuple(seq)}, {"a": (seq[-1],), "b": (seq[0],)}]:
+            for mode in ("real->real", "real->ref"):
+                O.evaluations += 1
+                O.count("conflation_probes")
+                kind, txt, err, _got = argspec_rt(E, "n", params, mode)
+                if kind == "ok":
+                    O.count("argspec_ok")
+                    continue
+                for key, summ in classify_argspec(E, O, "n", params, mode, kind, txt, err):
+                    O.viol(key, "conflation probe: " + summ, {"name": "n", "parameters": {k: enc(v) for k, v in params.items()},
+                                                               "mode": mode, "text": txt, "outcome": kind})
+
+
 def work_rt(E, job, O):
     rng = random.Random(job["seed"])
     facts = _factories(E)
+    conflation_probes(E, O, facts, rng, flip=bool(job["shard"] % 2))
     classes = _materialize(facts, sorted(facts)[job["shard"]::job["nshards"]], O)
     mine = sorted(classes)
     for label in mine:
@@ -1057,9 +1209,18 @@ def finish(agg, tier):
     }
     if not q:
         need = {k: n * 30 for k, n in need.items()}
+    unmeasured = set(agg.sets.get("anchors_not-instrumentable", ())) | set(agg.sets.get("anchors_behind-wrapper", ()))
+    for k in sorted(agg.sets.get("anchors_missing", ())):
+        inc.append(f"anchored symbol {k} not found in the tree")
     for k, n in need.items():
+        if k.startswith("anchor:") and k[7:] in unmeasured:
+            continue  # no code object of its own / behind a C-level wrapper: reach is reported, not thresholded
         if c.get(k, 0) < n:
             inc.append(f"{k} = {c.get(k, 0)} < {n}")
+    firsts = set(agg.sets.get("conflation_first_printed", ()))
+    if not {"1:bool", "1:float", "0:bool", "0:float"} <= firsts or c.get("conflation_probes", 0) < 200 \
+            or c.get("conflation_no_registered_bool_or_int_pass", 0):
+        inc.append(f"equal-value conflation probes: first-printed orders {sorted(firsts)}, probes {c.get('conflation_probes', 0)}")
     total = c.get("classes_total", 0)
     ex = len(agg.sets.get("classes_exercised", ()))
     rt = len(agg.sets.get("classes_roundtripped", ()))
@@ -1067,6 +1228,8 @@ def finish(agg, tier):
         inc.append(f"classes: total {total}, exercised {ex}, with >=1 successful round trip {rt} (want all, >= 140)")
     return {"inconclusive": inc,
             "coverage": {"anchors": {k[7:]: v for k, v in sorted(c.items()) if k.startswith("anchor:")},
+                         "anchors_not_fully_measured": {n: sorted(agg.sets.get("anchors_" + n, ()))
+                                                        for n in ("not-instrumentable", "behind-wrapper", "missing")},
                          "classes_total": total, "classes_with_options": len(agg.sets.get("classes_with_options", ())),
                          "excluded": {"ctor_rejected (constructor validation refused the generated assignment)": c.get("ctor_rejected", 0),
                                       "fuzz_excluded_lone_surrogate": c.get("fuzz_excluded_lone_surrogate", 0),
